@@ -6,6 +6,8 @@
 //       -L/repo/src/.libs -lppl -lgmpxx -lgmp
 //   LD_LIBRARY_PATH=/repo/src/.libs ./c03_trans --seed 1 --first 0 --last 20 --per 40 \
 //       | /verif/lean/.lake/build/bin/pplv_wrt
+//   ./c03_trans --replay <file>     re-executes the journal lines of <file> (id, op, T, matrix, closed flag and
+//                                   arguments are taken from each line, its recorded outcome is ignored)
 //
 // T in {mpq_class, mpz_class, int8_t, double}.  The matrix `dbm` is written and read directly
 // (`#define private public` around ppl.hh only — layout is unchanged, nothing in libppl is rebuilt), so
@@ -374,7 +376,103 @@ template <typename T> void run_oct(pplv::Rng& g, const std::string& idp, int per
   }
 }
 
+// ---- replay: re-execute journal lines (their input part) on the current tree ------------------------------
+static std::vector<std::string> split(const std::string& s, char sep) {
+  std::vector<std::string> r; std::string cur;
+  for (char ch : s) { if (ch == sep) { r.push_back(cur); cur.clear(); } else cur.push_back(ch); }
+  r.push_back(cur); return r;
+}
+template <typename N> void parse_entry(N& x, const std::string& s) {
+  if (s == "+inf") { assign_r(x, PLUS_INFINITY, ROUND_NOT_NEEDED); return; }
+  mpq_class q(s); q.canonicalize();
+  assign_r(x, q, ROUND_UP);
+}
+static std::vector<long> parse_coeffs(const std::string& s) {
+  std::vector<long> r; if (s == "-") return r;
+  for (const std::string& t : split(s, ',')) r.push_back(atol(t.c_str()));
+  return r;
+}
+static Linear_Expression mk_expr(const std::vector<long>& e, long b) {
+  Linear_Expression le;
+  for (size_t i = 0; i < e.size(); ++i) if (e[i] != 0) le += e[i] * Variable(i);
+  le += b; return le;
+}
+static Relation_Symbol mk_rel(const std::string& r) { return r == "le" ? LESS_OR_EQUAL : r == "ge" ? GREATER_OR_EQUAL : EQUAL; }
+
+template <typename T> void replay_line(const std::vector<std::string>& t) {
+  const std::string& op = t[1];
+  dimension_type n = (dimension_type)atol(t[3].c_str());
+  bool closed = t[4] == "1";
+  std::vector<std::string> rows = split(t[5], ';');
+  std::vector<std::string> a(t.begin() + 6, t.end());
+  std::string headtxt;
+  for (size_t i = 0; i < 6; ++i) headtxt += t[i] + " ";
+  std::string after;
+  if (op == "oaff") {
+    Octagonal_Shape<T> oc(n, UNIVERSE);
+    dimension_type ri = 0;
+    for (typename OR_Matrix<typename Octagonal_Shape<T>::N>::row_iterator i = oc.matrix.row_begin(), e = oc.matrix.row_end(); i != e; ++i, ++ri) {
+      typename OR_Matrix<typename Octagonal_Shape<T>::N>::row_reference_type row = *i;
+      std::vector<std::string> es = split(rows.at(ri), ',');
+      for (dimension_type j = 0, rs = i.row_size(); j < rs; ++j) parse_entry(row[j], es.at(j));
+    }
+    if (closed) oc.set_strongly_closed(); else oc.reset_strongly_closed();
+    for (size_t i = 0; i < 4; ++i) headtxt += a.at(i) + " ";
+    put(headtxt);
+    try { oc.affine_image(Variable(atol(a[0].c_str())), mk_expr(parse_coeffs(a[3]), atol(a[2].c_str())), Coefficient(atol(a[1].c_str()))); after = outcome(oc); }
+    catch (int) { after = "X:int"; } catch (...) { after = "X:" + pplv::exc_class(); }
+    put(after + "\n");
+    return;
+  }
+  BD_Shape<T> bd(n, UNIVERSE);
+  for (dimension_type i = 0; i <= n; ++i) {
+    std::vector<std::string> es = split(rows.at(i), ',');
+    for (dimension_type j = 0; j <= n; ++j) parse_entry(bd.dbm[i][j], es.at(j));
+  }
+  if (closed) bd.set_shortest_path_closed(); else bd.reset_shortest_path_closed();
+  size_t k = (op == "unc") ? 1 : (op == "gaff" || op == "gapre") ? 5 : (op == "baff") ? 6 : 4;
+  for (size_t i = 0; i < k; ++i) headtxt += a.at(i) + " ";
+  put(headtxt);
+  try {
+    if (op == "refine" || op == "addc") {
+      std::vector<long> cf = parse_coeffs(a[3]);
+      Linear_Expression le = mk_expr(cf, atol(a[2].c_str()));
+      le.set_space_dimension((dimension_type)atol(a[0].c_str()));
+      Constraint c = a[1] == "eq" ? (le == 0) : a[1] == "ge" ? (le >= 0) : (le > 0);
+      if (op == "refine") bd.refine_no_check(c); else bd.add_constraint(c);
+    }
+    else if (op == "aff") bd.affine_image(Variable(atol(a[0].c_str())), mk_expr(parse_coeffs(a[3]), atol(a[2].c_str())), Coefficient(atol(a[1].c_str())));
+    else if (op == "apre") bd.affine_preimage(Variable(atol(a[0].c_str())), mk_expr(parse_coeffs(a[3]), atol(a[2].c_str())), Coefficient(atol(a[1].c_str())));
+    else if (op == "gaff") bd.generalized_affine_image(Variable(atol(a[0].c_str())), mk_rel(a[1]), mk_expr(parse_coeffs(a[4]), atol(a[3].c_str())), Coefficient(atol(a[2].c_str())));
+    else if (op == "gapre") bd.generalized_affine_preimage(Variable(atol(a[0].c_str())), mk_rel(a[1]), mk_expr(parse_coeffs(a[4]), atol(a[3].c_str())), Coefficient(atol(a[2].c_str())));
+    else if (op == "baff") bd.bounded_affine_image(Variable(atol(a[0].c_str())), mk_expr(parse_coeffs(a[3]), atol(a[2].c_str())), mk_expr(parse_coeffs(a[5]), atol(a[4].c_str())), Coefficient(atol(a[1].c_str())));
+    else if (op == "unc") bd.unconstrain(Variable(atol(a[0].c_str())));
+    after = outcome(bd);
+  } catch (int) { after = "X:int"; } catch (...) { after = "X:" + pplv::exc_class(); }
+  put(after + "\n");
+}
+
+static int replay_file(const char* path) {
+  FILE* f = fopen(path, "r");
+  if (!f) { perror(path); return 2; }
+  std::vector<std::string> lines; char* buf = 0; size_t cap = 0;
+  while (getline(&buf, &cap, f) > 0) { std::string l(buf); while (!l.empty() && (l.back() == '\n' || l.back() == '\r')) l.pop_back(); if (!l.empty()) lines.push_back(l); }
+  fclose(f);
+  return pplv::run_batches(0, (long)lines.size(), [&](long b) {
+    std::vector<std::string> t;
+    for (const std::string& w : split(lines[(size_t)b], ' ')) if (!w.empty()) t.push_back(w);
+    if (t.size() < 7) return;
+    const std::string& mode = t[2];
+    if (mode == "id") replay_line<mpq_class>(t);
+    else if (mode == "ceil") replay_line<mpz_class>(t);
+    else if (mode == "dbl") replay_line<double>(t);
+    else replay_line<int8_t>(t);
+  }, 120);
+}
+
 int main(int argc, char** argv) {
+  const char* rp = pplv::arg_str(argc, argv, "--replay", 0);
+  if (rp) return replay_file(rp);
   long seed = pplv::arg_long(argc, argv, "--seed", 1), first = pplv::arg_long(argc, argv, "--first", 0),
        last = pplv::arg_long(argc, argv, "--last", 10), per = pplv::arg_long(argc, argv, "--per", 40),
        oct = pplv::arg_long(argc, argv, "--oct", 0);
